@@ -6,6 +6,7 @@ import (
 	"os"
 	"reflect"
 	"sort"
+	"strings"
 	"unsafe"
 
 	"golang.org/x/tools/go/ssa"
@@ -56,12 +57,12 @@ func cloneStruct(ptr interface{}) interface{} {
 }
 
 type inliner struct {
-	c       *Ctx
-	cand    map[*ssa.Function]bool
-	counter int
+	c            *Ctx
+	cand         map[*ssa.Function]bool
+	counter      int
 	allowClosure bool
-	touched []*ssa.Function
-	Log     []string
+	touched      []*ssa.Function
+	Log          []string
 }
 
 func newBlock(parent *ssa.Function, comment string) *ssa.BasicBlock {
@@ -267,8 +268,8 @@ func buildDom(f *ssa.Function) {
 		return
 	}
 	type info struct {
-		idom     *ssa.BasicBlock
-		children []*ssa.BasicBlock
+		idom      *ssa.BasicBlock
+		children  []*ssa.BasicBlock
 		pre, post int32
 	}
 	inf := make([]info, n)
@@ -676,6 +677,47 @@ func vmap0(bmap map[*ssa.BasicBlock]*ssa.BasicBlock, b *ssa.BasicBlock, d *ssa.D
 	panic("inline: defer clone not found")
 }
 
+// Renames: a function of the reference tree that is gone while an unknown
+// function with the same receiver and signature exists. The rules look
+// functions up by their reference names; these tables translate.
+var (
+	renamedFn     map[string]*ssa.Function // reference full name -> current function
+	renamedBack   map[*ssa.Function]string // current function -> reference full name
+	renamedMethod map[string]string        // current method name -> reference method name
+)
+
+// refQ: the full name of f as the reference tree spells it.
+func refQ(f *ssa.Function) string {
+	if f == nil {
+		return ""
+	}
+	if old, ok := renamedBack[f]; ok {
+		return old
+	}
+	return f.String()
+}
+
+// refName: the bare name of f as the reference tree spells it.
+func refName(f *ssa.Function) string {
+	if old, ok := renamedBack[f]; ok {
+		return old[strings.LastIndex(old, ".")+1:]
+	}
+	return f.Name()
+}
+
+// mname: the name of an interface method as the reference tree spells it.
+func mname(m *types.Func) string {
+	if m == nil {
+		return ""
+	}
+	if m.Pkg() != nil && strings.HasPrefix(m.Pkg().Path(), modPath) {
+		if old, ok := renamedMethod[m.Name()]; ok {
+			return old
+		}
+	}
+	return m.Name()
+}
+
 // normalizeHelpers expands unknown helpers everywhere; returns the helpers
 // that no longer have any reference (to be dropped from the rule scope).
 func (c *Ctx) normalizeHelpers(all map[*ssa.Function]bool) map[*ssa.Function]bool {
@@ -701,21 +743,34 @@ func (c *Ctx) normalizeHelpers(all map[*ssa.Function]bool) map[*ssa.Function]boo
 	for _, f := range modFns {
 		present[f.String()] = true
 	}
-	missingSig := map[string]int{}
+	// pair each missing reference function with an unknown function of the
+	// same receiver and signature, in declaration order
+	renamedFn, renamedBack, renamedMethod = map[string]*ssa.Function{}, map[*ssa.Function]string{}, map[string]string{}
+	missingBySig := map[string][]string{}
 	for name := range knownFuncs {
 		if !present[name] {
 			if sig, ok := knownSigs[name]; ok {
-				missingSig[sig]++
+				missingBySig[sig] = append(missingBySig[sig], name)
 			}
 		}
 	}
+	for _, ms := range missingBySig {
+		sort.Slice(ms, func(i, j int) bool { return knownOrder[ms[i]] < knownOrder[ms[j]] })
+	}
+	taken := map[string]int{}
 	for _, f := range modFns {
 		if f.Parent() != nil || knownFuncs[f.String()] || f.Name() == "init" || f.Name() == "main" {
 			continue
 		}
-		if sig := sigKey(f); missingSig[sig] > 0 {
-			missingSig[sig]--
-			il.Log = append(il.Log, fmt.Sprintf("helper %s not expanded: takes the place of a function of the reference tree with the same receiver and signature (rename)", f))
+		if sig := refSig(sigKey(f)); taken[sig] < len(missingBySig[sig]) {
+			old := missingBySig[sig][taken[sig]]
+			taken[sig]++
+			renamedFn[old] = f
+			renamedBack[f] = old
+			if f.Signature.Recv() != nil {
+				renamedMethod[f.Name()] = old[strings.LastIndex(old, ".")+1:]
+			}
+			il.Log = append(il.Log, fmt.Sprintf("helper %s not expanded: takes the place of %s of the reference tree (same receiver and signature: a rename)", f, old))
 			continue
 		}
 		if ok, why := il.inlinable(f); ok {
